@@ -70,6 +70,14 @@ def gen_cases(tier, seed):
                                     faults.append({'at': f't0/s3:GetObject:{start}#{j}', 'phase': 'body',
                                                    'bytes': rng.choice(fault_positions(ln, cfg['io_chunksize'] if cfg['io_chunksize'] < 100 else 4)),
                                                    'kind': rng.choice(STREAM_KINDS), 'tag': f'FAULT-s{start}-{j}'})
+                    if variant >= 2 and attempts >= 3 and rng.random() < 0.5:
+                        # mix in a connection error raised by the request itself (also budgeted by num_download_attempts)
+                        (start, ln) = rng.choice(rs)
+                        faults = [f for f in faults if not f['at'].startswith(f't0/s3:GetObject:{start}#')]
+                        faults.append({'at': f't0/s3:GetObject:{start}#0', 'phase': 'body', 'bytes': rng.randrange(0, ln + 1),
+                                       'kind': rng.choice(STREAM_KINDS), 'tag': f'FAULT-m{start}-0'})
+                        faults.append({'at': f't0/s3:GetObject:{start}#1', 'phase': rng.choice(['before', 'after']), 'kind': 'connreset',
+                                       'tag': f'FAULT-m{start}-1'})
                     if faults:
                         spec['plan']['faults'] = faults
                     if len(rs) > 1 and rng.random() < 0.5:
